@@ -247,6 +247,27 @@ class Executor:
     def divmod(self, a, b):
         """truncating division with a *symbolic* divisor: fresh q, r with the division lemma
         a = q*b + r, |r| < |b|, sign(r) in {0, sign(a)}  (caller has excluded b == 0)"""
+        if is_z3(a) and is_conc(simp(b)):
+            # a value known to be a digit string in some base (sum e_j * base^j, 0 <= e_j < base) divided by a power of
+            # that base: quotient and remainder are the upper and lower digits - exact linear terms, no lemma needed
+            dg = self.memo.get(('digits_of', a.get_id()))
+            bb = int(simp(b))
+            if dg is not None and bb >= 1:
+                base, es = dg
+                m, t = 0, 1
+                while t < bb:
+                    t *= base
+                    m += 1
+                if t == bb:
+                    def poly(ds):
+                        r_ = z3.IntVal(0)
+                        for j, e in enumerate(ds):
+                            r_ = r_ + e * (base ** j)
+                        return z3.simplify(r_)
+                    q, r = poly(es[m:]), poly(es[:m])
+                    self.memo[('digits_of', q.get_id())] = (base, es[m:])
+                    self.memo[('digits_of', r.get_id())] = (base, es[:m])
+                    return q, r
         if is_conc(simp(b)) or (is_conc(a) and is_conc(b)):
             return i_tdiv(a, b), i_trem(a, b)
         a, b = zint(a), zint(b)
